@@ -13,8 +13,8 @@ TRUSTED = [
     "Spec/MasterSpec.v: the filter grammar (denote) and reply pages, written from the Master Server Query Protocol",
     "the expected filter groups of an insertion sequence (a later filter of a kind replaces the earlier, per group) are computed by the check from the property text",
 ]
-RULE = ("groups of 9 to 18 distinct filters (two-digit counts); " "all insertion sequences of length <= 2 (quick) / <= 3 (thorough) over the 18 filter kinds x 3 groups with boundary values, random sequences up to 12, all 9 regions; "
-        "listings of 1-6 pages of 0-231 entries from the extracted Spec generator with the terminator at any position; "
+RULE = ("groups of 9 to 18 distinct filters (two-digit counts); " "all insertion sequences of length <= 2 (quick) / <= 3 (thorough) over the 18 filter kinds x 3 groups with boundary values (tag lists with empty tags included), random sequences up to 12, all 9 regions; "
+        "listings of 1-6 pages of 0-231 entries from the extracted Spec generator with the terminator at any position, a page often beginning with the address the request was seeded with; "
         "non-trivial = at least two insertions or at least two pages; distinct by case bytes")
 
 KEYS = ["secure", "map", "password", "empty", "noplayers", "full", "appid", "napp", "gametype", "name_match", "version_match",
@@ -45,7 +45,7 @@ def values(kind, r=None):
         return [b"de_dust2", b"", b"a b*"]
     if kind in (6, 7):
         return [0, 440, 4294967295]
-    return [[], [b"coop"], [b"a", b"b", b"c"]]
+    return [[], [b"coop"], [b"a", b"b", b"c"], [b""], [b"", b"x"], [b"a", b""], [b"", b""]]
 
 
 def master_case(port, region, ops, mode, seed_addr, events, has=True):
